@@ -1502,6 +1502,51 @@ def wfNoLazyD : List (String × Val) → Bool
   | (_, v) :: r => wfNoLazy v && wfNoLazyD r
 end
 
+/-- pairwise different under `==` (off the diagonal only; reflexivity is `pyEq_refl`) -/
+def pairwiseNeB (as : List Val) : Bool :=
+  (List.range as.length).all fun i => (List.range as.length).all fun j =>
+    match as[i]?, as[j]? with
+    | some a, some b => i == j || !pyEq a b
+    | _, _ => true
+
+/-- two sparse actions whose keys crc32 sends to one slot (given as the table), Densify(hashing) -/
+def wHashCollision : List Inter :=
+  [{ actions := some [.dict [("a", .num 1)], .dict [("b", .num 1)]],
+     rewards := some (.fn [(.dict [("a", .num 1)], 5), (.dict [("b", .num 1)], 6)] (-999)) }]
+
+/-! ## Batched interactions (`Batch.Callable`, `Batch.List`)
+
+A batch of interactions is one dict whose values are lists; a batched reward function is called
+with one action per member and answers with one reward per member: `outs = map(lambda f,a: f(a), self, args)`. -/
+
+/-- `Batch.Callable([f_0,…])([a_0,…]) = [f_0(a_0),…]` (zip truncates) -/
+def batchCall : List Rew → List Val → List (Except Err Rat)
+  | f :: fs, a :: as => callRew f a :: batchCall fs as
+  | _, _ => []
+
+/-- the i-th action of every member of a batch -/
+def column (i : Nat) (actss : List (List Val)) : Option (List Val) :=
+  match actss with
+  | [] => some []
+  | as :: rest => match as[i]?, column i rest with
+    | some a, some col => some (a :: col)
+    | _, _ => none
+
+/-- what the batched reward function answers when it is asked for the i-th action of every member -/
+def batchObs (get : Inter → Option Rew) (batch : List Inter) (i : Nat) : Option (List (Except Err Rat)) :=
+  match mapM' (fun I => match get I, I.actions with
+                        | some r, some as => (if r.isCallable then Except.ok (r, as) else .error .typeError)
+                        | _, _ => .error .keyError) batch with
+  | .error _ => none
+  | .ok pairs => match column i (pairs.map (·.2)) with
+    | some col => some (batchCall (pairs.map (·.1)) col)
+    | none => none
+
+/-- the stream cut into its batches -/
+def cutBatches {α} : List Nat → List α → List (List α)
+  | [], _ => []
+  | n :: ns, xs => xs.take n :: cutBatches ns (xs.drop n)
+
 /-! ### witnesses of the recorded defects (replayed on the real code by the harness) -/
 def catA : Val := .cat "a" ["a", "b"]
 def catB : Val := .cat "b" ["a", "b"]
